@@ -121,7 +121,7 @@ DIMENSIONS = {
         "ctor": {"length": (V, "1/16..40, float / int / numpy scalar"), "width": (V, "1/16..30, float / int / numpy scalar"),
                  "center": (V, "grid points, far away (1e5), default (omitted at the origin)"),
                  "orientation": (V, "0 (exact), pi/2, arbitrary; default (omitted at 0)")},
-        "set": {"center": (V, "shape histories: set before / after a first query"), "length": (V, "shape histories"),
+        "set": {"center": (V, "shape histories: set before / after a first query; as a new array, by augmented assignment (+=), in place + self-assignment, through the constructor's own array"), "length": (V, "shape histories"),
                 "width": (V, "shape histories"), "orientation": (V, "shape histories"),
                 "vertices": (F, "setter only warns that the vertices are immutable"),
                 "_shapely_polygon": (F, "private cache slot")},
@@ -132,14 +132,14 @@ DIMENSIONS = {
     },
     "Circle": {
         "ctor": {"radius": (V, "1/16..10, float / int / numpy scalar"), "center": (V, "grid points, far away, default (omitted at the origin)")},
-        "set": {"center": (V, "shape histories"), "radius": (V, "shape histories")},
+        "set": {"center": (V, "shape histories (new array / += / in place + self-assignment / constructor's array)"), "radius": (V, "shape histories")},
         "get": {"shapely_object": (O, "exported geometry (known finding: radius r/2)")},
         "method": {"contains_point": (O, "boundary-heavy points incl. exact Pythagorean boundary points"), "draw": (X, "C19"),
                    "rotate_translate_local": (V, "as Rectangle"), "translate_rotate": (V, "as Rectangle")},
     },
     "Polygon": {
         "ctor": {"vertices": (V, "3..7 vertices star-shaped, either orientation, open / closed ring, lanelet rings")},
-        "set": {"vertices": (V, "shape histories")},
+        "set": {"vertices": (V, "shape histories (new array / += / in place + self-assignment / constructor's array)")},
         "get": {"shapely_object": (O, "exported geometry"), "center": (F, "centroid; not part of the property")},
         "method": {"contains_point": (O, "vertices, edge mid points, bounding-box corners"), "draw": (X, "C19"),
                    "rotate_translate_local": (V, "as Rectangle"), "translate_rotate": (V, "as Rectangle")},
